@@ -1,22 +1,6 @@
-From Robsd Require Import Orch.ResumeDefs.
+From Robsd Require Import Orch.ResumeDefs Orch.ResumeSpec.
 From Coq Require Import Sorting.Sorted.
 Local Open Scope Z_scope.
-
-(* ---- the specification of the resume point, as the property words it -------------- *)
-
-Definition nonskip (r : srow) : bool := negb (r_skip r =? 1).
-
-(* the last recorded non-skipped step *)
-Definition last_nonskipped (f : sfile) : option srow :=
-  match rev (filter nonskip f) with r :: _ => Some r | [] => None end.
-
-Definition spec_resume (f : sfile) : option Z :=
-  match last_nonskipped f with
-  | None => None                                            (* only skipped steps recorded: fail *)
-  | Some r => if negb (r_exit r =? 0) || beq (r_name r) END
-              then Some (r_id r)                            (* failed, in flight (-1), or the end step *)
-              else Some (r_id r + 1)                        (* otherwise the step following it *)
-  end.
 
 Lemma next_from_rev_filter l :
   next_from_rev l =
@@ -396,3 +380,23 @@ Section Reach.
   Theorem crash_resume f x : reach f -> step_next f = Some x -> resume_ok f x.
   Proof. intros R. apply resume_point_ok with (steps := steps). now apply reach_good. Qed.
 End Reach.
+
+Lemma resume_okb_spec f x : resume_okb f x = true <-> resume_ok f x.
+Proof.
+  unfold resume_okb, resume_ok. rewrite forallb_forall. split.
+  - intros H. split.
+    + intros r Hin Hns Hlt. specialize (H r Hin). rewrite Hns in H. cbn [negb orb] in H.
+      destruct (Z.ltb_spec (r_id r) x); [|lia]. apply andb_true_iff in H. destruct H as [H1 H2].
+      apply Z.eqb_eq in H1. apply negb_true_iff in H2. auto.
+    + intros r Hin Hns Hge. specialize (H r Hin). rewrite Hns in H. cbn [negb orb] in H.
+      destruct (Z.ltb_spec (r_id r) x); [lia|]. apply andb_true_iff in H. destruct H as [H1 H2].
+      apply Z.eqb_eq in H1. split; [exact H1|]. apply orb_true_iff in H2. destruct H2 as [H2|H2].
+      * left. apply negb_true_iff, Z.eqb_neq in H2. exact H2.
+      * right. now apply beq_eq.
+  - intros [H1 H2] r Hin. destruct (nonskip r) eqn:Hns; [|reflexivity]. cbn [negb orb].
+    destruct (Z.ltb_spec (r_id r) x) as [Hlt|Hge].
+    + destruct (H1 r Hin Hns Hlt) as [E1 E2]. rewrite E1, E2. reflexivity.
+    + destruct (H2 r Hin Hns Hge) as [E [E2|E2]]; rewrite E, Z.eqb_refl; cbn [andb].
+      * apply orb_true_iff. left. apply negb_true_iff, Z.eqb_neq. exact E2.
+      * apply orb_true_iff. right. now apply beq_eq.
+Qed.
